@@ -2,6 +2,7 @@
 package c33
 
 import (
+	"regexp"
 	"strings"
 
 	sdk "github.com/cosmos/cosmos-sdk/types"
@@ -23,8 +24,12 @@ func baseDenom(validate bool) (string, []string) {
 		verif.Assume(!strings.Contains(x, "/") && x != "")
 		if i%2 == 1 {
 			// the segments the parser inspects as hop candidates come in three shapes (stated bound):
-			// "channel-<n>", "<t>-<n>" with t dash-free, or a dash-free string
-			switch verif.Choice("shape"+string(rune('0'+i)), 3) {
+			// "channel-<n>", "<t>-<n>" with t dash-free, a dash-free string, or "channel-<digit string>"
+			switch verif.Choice("shape"+string(rune('0'+i)), 4) {
+			case 3:
+				// "channel-<digits>" with an arbitrary digit string of 1..20 digits (may exceed 2^64-1)
+				verif.Assume(isDigits(x) && len(x) <= 20)
+				x = "channel-" + x
 			case 0:
 				x = "channel-" + verif.DecU64(verif.Uint64("segN"+string(rune('0'+i))))
 			case 1:
@@ -42,6 +47,10 @@ func baseDenom(validate bool) (string, []string) {
 	}
 	return base, segs
 }
+
+var digitsRe = regexp.MustCompile(`^[0-9]+$`)
+
+func isDigits(s string) bool { return digitsRe.MatchString(s) }
 
 func hop(validate bool) (string, string) {
 	port := verif.String("port")
